@@ -41,6 +41,9 @@ CLAIMED["C11"] = ("proof", CLAIMED["C12"][1] + " with ghost file-system effect s
 CLAIMED["C15"] = ("proof", CLAIMED["C12"][1] + " with ghost file-system effect sets; exhaustive syntactic scan for writing APIs",
     "closed list of writing operations by an exhaustive scan on every run; effect contracts on the real bodies of the lint and lint-file callbacks (no effects), add_header_to_file, all_paths (only named files or covered files below named directories), the annotate callback, the convert-dep5 callback (REUSE.toml written, dep5 removed only afterwards, refusal without effects) and put_license_in_file / download",
     "effects of pathlib/shutil/open as modelled; VCS subprocesses, click.File and os.environ are listed assumptions; named symlink arguments follow the link", "4.15")
+CLAIMED["C20"] = ("proof", CLAIMED["C12"][1] + "; regular-language membership via z3 (lazy regex abstraction); bounded enumerations through the real builder and reader",
+    "contracts on the real bodies of make_copyright_line (raises exactly on newline / unknown prefix; verbatim iff the statement is a notice in the sense of the statement's tag list - compared with the search languages of the three real compiled patterns for all strings; otherwise prefix [year] statement for each of the ten prefixes), _parse_copyright_year and get_year; lemma: every built line is a notice; the captured prefix/year/holder groups and merge_copyright_lines are exercised by bounded enumerations (labelled bounded, not counted as proved)",
+    "capture groups of the patterns and the merge fold are bounded only; Python re = the calculus of pyvc.rx; code points <= U+2FFFF", "4.20")
 NOT_YET = "check not built yet in this session (work in progress; see DESIGN.md section 4 for the planned contracts)"
 props = [json.loads(l) for l in open(os.path.join(V, "properties.jsonl"))]
 checks, na = [], []
